@@ -45,6 +45,7 @@ from harness.impl import fixture
 
 os.environ["LSST_RESOURCES_NUM_WORKERS"] = "1"
 STEP_TIMEOUT = float(os.environ.get("VERIF_C20_STEP_TIMEOUT", "25"))
+DGROUPS = [("instrument", "physical_filter"), ("skymap",), ("instrument", "visit"), ("band",)]
 CTYPES = {"RUN": 1, "TAGGED": 2, "CHAINED": 3, "CALIBRATION": 4}
 
 _tls = threading.local()
@@ -208,6 +209,11 @@ def do_op(butler, op, slots, own):
     if k == "regdt":
         sc = "StructuredDataDict" if op[2] == 0 else "StructuredDataList"
         dt = DatasetType(op[1], dimensions=["instrument", "detector"], storageClass=sc, universe=butler.dimensions)
+        return bool(reg.registerDatasetType(dt))
+    if k == "regdtg":
+        # dataset type over a dimension group that may be NEW to the repository (first use allocates a dimension-group key)
+        sc = "StructuredDataDict" if op[3] == 0 else "StructuredDataList"
+        dt = DatasetType(op[1], dimensions=list(DGROUPS[op[2]]), storageClass=sc, universe=butler.dimensions)
         return bool(reg.registerDatasetType(dt))
     raise ValueError(f"unknown op {op!r}")
 
